@@ -173,6 +173,104 @@ async def reader_case(ctx, stream: bytes, cuts: tuple[int, ...], eof: bool) -> N
     judge_reads(ctx, case, stream, eof, results)
 
 
+async def cancelled_read_case(ctx, stream: bytes, pattern: list[str], engine: str) -> None:
+    """Reads that are cancelled (task.cancel / wait_for timeout) while pending - before any byte of the next line has
+    arrived, or in the middle of a line - must not cost a line: the following reads still return exactly the lines of
+    the stream, in order, and fail only with transport errors."""
+    from aiomysensors.transport.tcp import TCPTransport
+
+    case = {"engine": "cancelled-read-" + engine, "stream": stream.hex(), "pattern": pattern}
+    lines = [raw + b"\n" for raw in stream.split(b"\n")[:-1]]
+    feed_events: list[asyncio.Event] = [asyncio.Event() for _ in lines]
+    server = None
+    transport = TCPTransport("127.0.0.1", 1)
+    if engine == "streamreader":
+        if not hasattr(transport, "reader"):
+            return
+        reader = asyncio.StreamReader(limit=LIMIT)
+        transport.reader = reader
+
+        async def feed(index: int, part: str) -> None:
+            data = lines[index]
+            reader.feed_data(data[: len(data) // 2] if part == "half" else (data[len(data) // 2:] if part == "rest" else data))
+    else:
+        peer: dict = {}
+
+        async def handler(r, w) -> None:
+            peer["w"] = w
+            await r.read()
+            w.close()
+
+        server = await asyncio.start_server(handler, "127.0.0.1", 0)
+        transport = TCPTransport("127.0.0.1", server.sockets[0].getsockname()[1])
+        await transport.connect()
+        for _ in range(20):
+            await asyncio.sleep(0.001)
+            if "w" in peer:
+                break
+
+        async def feed(index: int, part: str) -> None:
+            data = lines[index]
+            peer["w"].write(data[: len(data) // 2] if part == "half" else (data[len(data) // 2:] if part == "rest" else data))
+            await peer["w"].drain()
+            await asyncio.sleep(0.002)
+
+    results: list[tuple[str, object]] = []
+    try:
+        for index in range(len(lines)):
+            how = pattern[index % len(pattern)]
+            if how in ("cancel-before", "timeout-before", "cancel-mid"):
+                if how == "cancel-mid":
+                    await feed(index, "half")
+                pending = asyncio.ensure_future(transport.read())
+                for _ in range(3):
+                    await asyncio.sleep(0)
+                if how == "timeout-before":
+                    try:
+                        await asyncio.wait_for(pending, 0.001)
+                        results.append(("line", pending.result()))
+                        await feed(index, "all")
+                        continue
+                    except asyncio.TimeoutError:
+                        pass
+                    except Exception as exc:  # noqa: BLE001
+                        results.append(("error", exc))
+                else:
+                    pending.cancel()
+                    try:
+                        results.append(("line", await pending))
+                    except asyncio.CancelledError:
+                        pass
+                    except Exception as exc:  # noqa: BLE001
+                        results.append(("error", exc))
+                await feed(index, "rest" if how == "cancel-mid" else "all")
+            else:
+                await feed(index, "all")
+            try:
+                results.append(("line", await asyncio.wait_for(transport.read(), 5)))
+            except asyncio.TimeoutError:
+                results.append(("error", TimeoutError(f"read #{index} never completed after an earlier read was cancelled")))
+                break
+            except Exception as exc:  # noqa: BLE001
+                results.append(("error", exc))
+    finally:
+        if server is not None:
+            try:
+                await transport.disconnect()
+            except Exception:  # noqa: BLE001
+                pass
+            server.close()
+            await server.wait_closed()
+        _ = feed_events
+    ctx.case(("cancelled-read", engine, stream, tuple(pattern)), nontrivial=True, sample=case)
+    ctx.clause("reads-after-cancelled-read")
+    for kind, value in results:
+        if kind == "error" and isinstance(value, TimeoutError):
+            ctx.violation("line-lost-after-cancelled-read", str(value), case)
+            return
+    judge_reads(ctx, case, stream, False, results)
+
+
 async def tcp_case(ctx, stream: bytes, chunk_sizes: list[int], writes: list[str], fault: str | None) -> None:
     """(b) real loopback server."""
     from aiomysensors.transport.tcp import TCPTransport
@@ -582,6 +680,7 @@ SHORT_STREAMS = [
     b"a\n\xff\nb\n", b"\xc3\xa5\n", b"\xc3\n\xa5\n", b"\xe6\x97\xa5\n", b"\xf0\x9f\x98\x80\n", b"\xf0\x9f\x98\n", b"\x00\n\x00\n",
     b"a\nb", b"\na", b"a\n", b"", b"\n", b"\r\n", b"x\n\xc3", b"\xe2\x82\xac;\n", b"ab\ncd\nef\n", b";;;;;\n", b" \n \n",
     b"\xed\xa0\x80\n", b"a\x85b\n", b"\xc2\x85\n",
+    b"\xef\xbb\xbfa\n", b"\xef\xbb\xbf\n\xef\xbb\xbfb\n", b"a\n\xef\xbb\xbf1;2;1;0;0;x\n", b"\xef\xbb\n", b"\xef\xbb\xbf",
 ]
 
 
@@ -593,7 +692,8 @@ def random_stream(rng) -> bytes:
             payload = rng.choice(["", "5", " pad ", "åäö", "日本", "😀", "a;b", "x" * rng.randint(0, 300), "\t", "\r"])
             line = f"{rng.randint(0, 255)};{rng.randint(0, 255)};{rng.randint(0, 4)};0;{rng.randint(0, 50)};{payload}".encode()
         elif roll < 0.7:
-            line = bytes(rng.choice([0x41, 0xFF, 0xC3, 0x28, 0x80, 0xE2, 0x82, 0x0D, 0x20, 0x00, 0x3B]) for _ in range(rng.randint(0, 8)))
+            line = rng.choice([b"", b"", b"\xef\xbb\xbf", b"\xef\xbb\xbf1;2;", b"\xe2\x80\x8b", b"\xc2\xa0"]) + bytes(
+                rng.choice([0x41, 0xFF, 0xC3, 0x28, 0x80, 0xE2, 0x82, 0x0D, 0x20, 0x00, 0x3B]) for _ in range(rng.randint(0, 8)))
         else:
             line = bytes(rng.randrange(256) for _ in range(rng.randint(0, 20))).replace(b"\n", b"")
         lines.append(line + b"\n")
@@ -627,6 +727,8 @@ def run_case(ctx, case: dict) -> None:
         arun(reader_case(ctx, bytes.fromhex(case["stream"]), tuple(case["cuts"]), case["eof"]))
     elif case.get("engine") == "tcp" and not str(case["stream"]).startswith("<"):
         arun(tcp_case(ctx, bytes.fromhex(case["stream"]), case["chunks"], case["writes"], case.get("fault")))
+    elif str(case.get("engine", "")).startswith("cancelled-read-"):
+        arun(cancelled_read_case(ctx, bytes.fromhex(case["stream"]), case["pattern"], case["engine"].split("-", 2)[2]))
     elif case.get("engine") == "tcp-backpressure":
         arun(backpressure_case(ctx, case["writers"], case["line_size"], case["seed"]))
     elif case.get("engine") == "tcp-reconnect":
@@ -657,6 +759,12 @@ def run(ctx) -> None:
             stream = random_stream(rng)
             cuts = tuple(sorted(rng.sample(range(1, max(2, len(stream))), min(max(0, len(stream) - 1), rng.randint(0, 6)))))
             arun(reader_case(ctx, stream, cuts, eof=rng.random() < 0.7))
+        patterns = [["cancel-before"], ["read", "cancel-before"], ["cancel-mid", "read"], ["timeout-before", "read", "cancel-mid"],
+                    ["cancel-before", "cancel-before", "read"], ["read"]]
+        for i, pattern in enumerate(patterns):
+            for engine in ("streamreader", "tcp"):
+                if ctx.mine(i):
+                    arun(cancelled_read_case(ctx, b"l0;a\nl1;bb\nl2;ccc\nl3;\xc3\xa5\nl4\nl5;end\n", pattern, engine))
         if ctx.shard_index == 0:
             for big in (b"x" * 70000 + b"\nafter\n", b"a\n" + b"y" * 66000 + b"\nz\n", b"q" * 65536 + b"\n", b"q" * 65535 + b"\nok\n"):
                 for cuts in ((), (10,), (65536,), (4096, 8192, 70000)):
